@@ -1,4 +1,5 @@
 import Driver.Config
+import Driver.C07
 open Lean Mockery.Config Driver.Cfg
 
 namespace Driver.C08
@@ -8,7 +9,18 @@ def handle (input : Json) : Except String Json := do
   | .error _ => pure (Json.mkObj [("error", Json.str "decode")])
   | .ok root =>
     let pkgs ← (← Driver.fldArr input "packages").toList.mapM pkgOfJson
-    let out := initTree fieldTable ⟨root, pkgs⟩
+    -- with a package tree (`subpkgs`): one `Initialize` including recursive injection
+    let out ← match Driver.fldOpt input "subpkgs" with
+      | none => pure (initTree fieldTable ⟨root, pkgs⟩)
+      | some subJ => do
+        let m ← Driver.C07.matcherOfJson ((Driver.fldOpt input "matches").getD (Json.arr #[]))
+        let subs : String → List String := fun p =>
+          match subJ.getObjVal? p with
+          | .ok (.arr a) => a.toList.filterMap (fun x => x.getStr?.toOption)
+          | _ => []
+        match initRound fieldTable m subs (initTree fieldTable ⟨root, pkgs⟩) with
+        | .ok o => pure o
+        | .error _ => throw "injection failed"
     let queries ← match Driver.fldOpt input "query" with
       | none => pure []
       | some a => do (← a.getArr?).toList.mapM (fun q => do
